@@ -9,7 +9,7 @@
 From Coq Require Import ZArith NArith String List Bool.
 Import ListNotations.
 From TP Require Import Base.PyVal Fields.FieldAst Fields.SetChain Fields.Doc Struct.Shapes Struct.Instance
-  Struct.Mutate Struct.MutateProofs Gen.Tables.
+  Struct.Mutate Struct.MutateProofs Gen.Tables Struct.WrapBody Struct.WrapBodyProofs Gen.WrapBodies.
 Local Open Scope string_scope.
 
 (* The statement as given: from a valid state EVERY operation either succeeds leaving a valid instance or
@@ -94,6 +94,60 @@ Section C03.
         struct_ok re_match e c (run_ops re_match e c a ops) = true /\
         Forall (tstep_good re_match e c) (run_trace re_match e c a ops).
   Proof. exact (history_safe_nohook re_match e). Qed.
+  (* (b') The wrapper methods themselves.  Every override of a list/deque/dict mutator in collections_impl.py
+     is transliterated statement by statement on every run (Gen/WrapBodies.v) and classified in Coq
+     ([classify]).  For ANY body classified copy-mutate-reassign -- any number of base operations on the local
+     copy, any trailing operations on the wrapper object itself, whatever the base type's methods do (oracle
+     [base_of], including failing), live or stale handle -- the statement-level execution [wexec] changes the
+     instance exactly as the coarse step [WrapMut n (CopyMutateReassign g) base] of the theorems above does ... *)
+  Variable base_of : pystr -> pyval -> res pyval.       (* oracle: the base type's methods *)
+  Variable partial_of : pystr -> pyval -> pyval.        (* oracle: what a failing base method leaves behind *)
+
+  Theorem C03_body_sound : forall c n kind m b g a hv live,
+      classify kind m b = CopyMutateReassign g ->
+      is_none_val hv = false -> results_not_none base_of -> self_ops_total base_of b ->
+      (w_inst (fst (wexec re_match e base_of partial_of c n (wstart a hv live) b)),
+       snd (wexec re_match e base_of partial_of c n (wstart a hv live) b))
+      = mstep re_match e c a (WrapMut n (CopyMutateReassign g) (cmr_base base_of b hv)).
+  Proof. exact (cmr_body_sound re_match e base_of partial_of). Qed.
+
+  (* ... hence it is validated and failure-atomic whenever the value it hands to setattr is acceptable *)
+  Theorem C03_body_step_good : forall c n kind m b g a hv live,
+      classify kind m b = CopyMutateReassign g ->
+      is_none_val hv = false -> results_not_none base_of -> self_ops_total base_of b ->
+      hook_wf c = true -> struct_ok re_match e c a = true ->
+      value_safe re_match e c a (WrapMut n (CopyMutateReassign g) (cmr_base base_of b hv)) = true ->
+      step_good re_match e c a (w_inst (fst (wexec re_match e base_of partial_of c n (wstart a hv live) b)))
+                (snd (wexec re_match e base_of partial_of c n (wstart a hv live) b)).
+  Proof. exact (cmr_body_step_good re_match e base_of partial_of). Qed.
+
+  (* ... whereas `guard; super().m(...)` on the live wrapper exposes whatever a FAILING base method leaves behind
+     (list.sort after a comparison raised, extend/update from an iterator that raised): atomic only if the base
+     method is; on a stale wrapper it never reaches the instance *)
+  Theorem C03_inplace_failure_exposes_partial : forall c n m a hv x,
+      frozen c n = false -> base_of m hv = Raise x ->
+      wexec re_match e base_of partial_of c n (wstart a hv true) [SGuard; SApplySelf m]
+      = ({| w_inst := alist_set a n (partial_of m hv); w_handle := partial_of m hv; w_live := true; w_copy := None |},
+         Raised x).
+  Proof. exact (inplace_failure_exposes_partial re_match e base_of partial_of). Qed.
+
+  (* ... and a whole history of calls through recognised bodies is the history of the corresponding coarse
+     operations, so C03_history applies to it verbatim *)
+  Theorem C03_calls_refine_ops : forall c ks a,
+      Forall (fun k => call_shape_safe k = true /\ call_wf k) ks ->
+      run_calls re_match e c a ks = run_ops re_match e c a (map call_mop ks).
+  Proof. exact (calls_refine_ops re_match e). Qed.
+
+  Theorem C03_call_history_valid : forall c ks a,
+      hook_wf c = true -> struct_ok re_match e c a = true ->
+      Forall (fun k => call_shape_safe k = true /\ call_wf k) ks ->
+      hist_safe re_match e c a (map call_mop ks) = true ->
+      struct_ok re_match e c (run_calls re_match e c a ks) = true.
+  Proof. exact (call_history_valid re_match e). Qed.
+
+  Theorem C03_stale_inplace_inert : forall c n m a hv,
+      w_inst (fst (wexec re_match e base_of partial_of c n (wstart a hv false) [SGuard; SApplySelf m])) = a.
+  Proof. exact (stale_inplace_inert re_match e base_of partial_of). Qed.
 End C03.
 
 (* (c) Witnesses.  For EVERY entry of ANY table whose shape is not safe there is a class, a valid state and
@@ -123,6 +177,14 @@ Theorem table_status : forall p,
     In p (unsafe_entries current_tables) -> violates (w_class HookNone) w_state (w_op (snd p)).
 Proof. exact (unsafe_entry_witness current_tables). Qed.
 
+(* the same for the tables refined by the Coq-side classification of the translated bodies (what the harness uses) *)
+Definition current_strict_tables : mutator_table :=
+  (refine 0%N list_mutators list_bodies ++ refine 1%N deque_mutators deque_bodies ++ refine 2%N dict_mutators dict_bodies)%list.
+
+Theorem strict_table_status : forall p,
+    In p (unsafe_entries current_strict_tables) -> violates (w_class HookNone) w_state (w_op (snd p)).
+Proof. exact (unsafe_entry_witness current_strict_tables). Qed.
+
 Print Assumptions C03_step_safe.
 Print Assumptions C03_step_safe_table.
 Print Assumptions C03_setattr_exact.
@@ -136,6 +198,15 @@ Print Assumptions C03_witness_hook.
 Print Assumptions C03_witness_del_hook.
 Print Assumptions C03_refuted.
 Print Assumptions table_status.
+Print Assumptions C03_body_sound.
+Print Assumptions C03_body_step_good.
+Print Assumptions C03_inplace_failure_exposes_partial.
+Print Assumptions C03_stale_inplace_inert.
+Print Assumptions C03_calls_refine_ops.
+Print Assumptions C03_call_history_valid.
+Print Assumptions strict_table_status.
+
+Eval vm_compute in (map fst (unsafe_entries current_strict_tables)).
 
 Eval vm_compute in (length (unsafe_entries list_mutators), length (unsafe_entries deque_mutators),
                     length (unsafe_entries dict_mutators)).
@@ -165,3 +236,54 @@ Example C03_nonvacuous :
   step_safe no_re [] (w_class w_hook) w_state w_hook_op = false /\
   table_safe current_tables = table_safe current_tables.
 Proof. repeat split; vm_compute; reflexivity. Qed.
+
+(* non-vacuity of (b'): the body of _ListStruct.append as translated (guard; copy; copied.append; setattr;
+   super().append) with an oracle under which every base method appends 7: the hypotheses of C03_body_sound hold,
+   the body is classified copy-mutate-reassign, a valid append goes through and the trailing super().append does
+   not reach the instance; with an oracle that yields an invalid element the step raises and changes nothing. *)
+Definition ex_append_body : wbody :=
+  [SGuard; SCopy; SApplyCopy (s2p "append"); SReassign CAlways; SApplySelf (s2p "append")].
+Definition ex_base (x : pyval) (_ : pystr) (v : pyval) : res pyval :=
+  Ok (match v with PList l => PList (l ++ [x]) | _ => PList [x] end).
+Definition ex_partial (_ : pystr) (v : pyval) : pyval := v.
+
+Example C03_body_nonvacuous :
+  classify 0%N (s2p "append") ex_append_body = CopyMutateReassign true /\
+  results_not_none (ex_base (PNum (NInt 7))) /\
+  self_ops_total (ex_base (PNum (NInt 7))) ex_append_body /\
+  (let r := wexec no_re [] (ex_base (PNum (NInt 7))) ex_partial (w_class w_hook) (s2p "a")
+                  (wstart w_state (PList [PNum (NInt 1)]) true) ex_append_body in
+   (alist_get (w_inst (fst r)) (s2p "a"), snd r, w_handle (fst r)))
+    = (Some (PList [PNum (NInt 1); PNum (NInt 7)]), Done, PList [PNum (NInt 1); PNum (NInt 7)]) /\
+  (let r := wexec no_re [] (ex_base (PStr (s2p "x"))) ex_partial (w_class w_hook) (s2p "a")
+                  (wstart w_state (PList [PNum (NInt 1)]) true) ex_append_body in
+   (w_inst (fst r), is_raised (snd r))) = (w_state, true).
+Proof.
+  split; [vm_compute; reflexivity|]. split; [|split; [|split; vm_compute; reflexivity]].
+  - intros m v nv H. unfold ex_base in H. inversion H. destruct v; reflexivity.
+  - intros m v _. reflexivity.
+Qed.
+
+(* non-vacuity of the call-history theorems: x.a.append(7) then x.a.append('x') through the translated body of
+   _ListStruct.append: both calls satisfy the side conditions, the history is safe, the first call goes through and
+   the second raises leaving the instance as it was. *)
+Definition ex_call (x : pyval) (hv : pyval) : wcall :=
+  {| wc_field := s2p "a"; wc_kind := 0%N; wc_meth := s2p "append"; wc_body := ex_append_body;
+     wc_base := ex_base x; wc_partial := ex_partial; wc_handle := hv; wc_live := true |}.
+Definition ex_calls : list wcall :=
+  [ ex_call (PNum (NInt 7)) (PList [PNum (NInt 1)]);
+    ex_call (PStr (s2p "x")) (PList [PNum (NInt 1); PNum (NInt 7)]) ].
+
+Example C03_calls_nonvacuous :
+  Forall (fun k => call_shape_safe k = true /\ call_wf k) ex_calls /\
+  hist_safe no_re [] (w_class w_hook) w_state (map call_mop ex_calls) = true /\
+  alist_get (run_calls no_re [] (w_class w_hook) w_state ex_calls) (s2p "a")
+    = Some (PList [PNum (NInt 1); PNum (NInt 7)]).
+Proof.
+  assert (Hwf : forall x hv, is_none_val hv = false -> call_wf (ex_call x hv)).
+  { intros x hv Hh. split; [exact Hh|]. split.
+    - intros m v nv H. unfold ex_call, wc_base, ex_base in H. inversion H. destruct v; reflexivity.
+    - intros m v _. reflexivity. }
+  split; [|split; vm_compute; reflexivity].
+  repeat constructor; try (vm_compute; reflexivity); apply Hwf; reflexivity.
+Qed.
